@@ -1,7 +1,7 @@
 (* C01 - the compiled parser and the model follow the grammar's PEG semantics.
    Model/Peg.v = the interpreter textX drives (validated by correspondence); Model/Spec.v = the
    reference semantics; both over the parser model dumped from the live metamodel. *)
-From TxV Require Import Core.Base Model.PegSyntax Model.Peg Model.Spec Proofs.SpecProofs Proofs.SpecSepProofs.
+From TxV Require Import Core.Base Model.PegSyntax Model.Peg Model.Spec Model.Build Proofs.SpecProofs Proofs.SpecSepProofs.
 
 (* FULL STATEMENT (the property, for the documented fragment of grammars):
      forall g c orc input, exists fuel0, forall fuel >= fuel0,
@@ -64,10 +64,26 @@ Theorem C01_refinement_fuel :
 Proof. exact refinement_fuel. Qed.
 Print Assumptions C01_refinement_fuel.
 
+(* Model equality: for grammars in the class (and a parser model whose top node is a rule root, as textX
+   builds it), the model textX constructs from the interpreter's parse tree (Build.build, for every
+   metamodel table, group oracle, auto_init_attributes and use_regexp_group setting) is the model
+   constructed from the reference tree: same objects, classes, attribute values, defaults, positions.
+   With separators the reference tree is the trailing-separator variant's; without, the documented one. *)
+Theorem C01_model_equality :
+  forall g mm pf c orc fuel input grp auto ug r,
+    wfg g pf = true -> orc_pos orc -> root_top g = true ->
+    run g c orc false fuel input = Parsed r ->
+    exists tsq p, spec_run_q g c orc fuel input = SOk tsq p /\
+      build g mm input grp auto ug r = build_flat g mm input grp auto ug (erase_all tsq) /\
+      (nosep g = true -> exists ts, spec_run g c orc fuel input = SOk ts p /\
+                                    build g mm input grp auto ug r = build_flat g mm input grp auto ug (erase_all ts)).
+Proof. exact model_equality. Qed.
+Print Assumptions C01_model_equality.
+
 (* non-vacuity: suppression, separator, predicates and a rule modifier inside the class
    (Model: 'm'- items+=Item[','] !'z' &';' ';';  Item[noskipws]: name=ID ('=' v=INT)?;) *)
 Example C01_refinement_rich_nonvacuous :
-  wfg g_rich 24 = true /\ nosep g_rich = false /\
+  wfg g_rich 24 = true /\ nosep g_rich = false /\ root_top g_rich = true /\
   accepts (run g_rich c_default (orc_of t_rich) false 60 in_rich) = true /\
   saccepts (spec_run g_rich c_default (orc_of t_rich) 60 in_rich) = true /\
   accepts (run g_rich c_default (orc_of t_rich) false 60 [109;32;97]%N) = false.
